@@ -1,6 +1,7 @@
 from lib.core import Ctx, Job
 
 H = "harness/C21_dispatch.py"
+H2 = "harness/C21_lowering.py"
 
 
 def run(ctx: Ctx) -> int:
@@ -12,14 +13,42 @@ def run(ctx: Ctx) -> int:
                              "tracing/unpacking.py: guppy_object_from_py (scalar constants: type and payload independent of the constants converted before, 10 constants incl. 2/2.0, 1/True, 0.0/-0.0, all ordered pairs)"]
     ctx.bounds = {"operators": "18 binary (12 arithmetic/bitwise, 6 comparisons), 3 unary + abs/bool/int/float, every dunder DunderMixin defines",
                   "operands": "traced value or Python constant on either side (at least one traced)", "type-check outcomes": "direct and reflected method each succeed or fail"}
-    ctx.outside_claim = ["the values computed (follow from identical dispatch plus C04)", "containers, struct handling, len(), calls to Guppy functions (trace_call needs a HUGR builder)",
-                         "guppy_object_from_py beyond scalar constants (tuples, lists, structs need HUGR ops)"]
+    ctx.outside_claim = ["bodies beyond the corpus; qubits and other non-copyable leaves (ownership is C22's subject)", "everything after the emitted HUGR",
+                         "operations that exist in one mode only (branching on a traced value, `not`, `and` / `or` on traced values)"]
     ctx.assumptions = ["stand-ins for the tracing state and for Globals.get_instance_func record (receiver, method, argument) and fail on demand",
                        "the Python data model table written in the harness (which dunder means what)"]
+    # lowering level: every body of the corpus under both decorators through /repo's whole pipeline; the two emitted HUGRs are interpreted side by side (lib/e7.py)
+    import json, os
+    from lib.core import Obligation
+    nb = 28          # bodies 0..27 are the main corpus, body 28 lies inside the known finding
+    for b in range(nb):
+        jobs.append(Job(H2, "h_same", timeout=ctx.pick(300, 900), name=f"h_same[body {b}]", env={"VERIF_C21_BATCH": str(b)}))
+    KEY_N = "C21:python-int-argument-for-nat-parameter"
+    jobs.append(Job(H2, "h_same", timeout=ctx.pick(200, 600), name="h_same[region python-int-argument-for-nat-parameter]", role=f"finding:{KEY_N}",
+                    env={"VERIF_C21_BATCH": ",".join(map(str, range(nb + 1))), "VERIF_C21_REGION": "python-int-argument-for-nat-parameter"}))
+    ctx.functions_encoded.append("lowering level: tracing/function.py trace_function / trace_call, tracing/object.py GuppyObject / GuppyStructObject, tracing/unpacking.py guppy_object_from_py / "
+                                 "unpack_guppy_object / update_packed_value, tracing/builtins_mock.py (int / float / len / abs), definition/traced.py — and the regular pipeline for the same body; "
+                                 "both emitted HUGRs interpreted by lib/e7.py")
+    ctx.bounds["bodies"] = ("28 bodies (arithmetic and bitwise operators with constants on either side, mixed int / float, comparisons and & | ^ on bools, calls of opaque and of Guppy functions, tuples, "
+                            "nested tuples, tuple returns incl. a 1-tuple, unrolled Python loops, arrays: construction, element reads / stores / augmented stores, arrays lent to borrowing functions "
+                            "(with element copies read before the call, with plain Python constants inside, rows of arrays of arrays, an array inside a tuple), structs, int() / float() / abs() / len(), "
+                            "equal-but-differently-typed constants, signed zeros); x in [-3, 4], |y| <= 1000, |opaque results| <= 1000 (symbolic); for the 8 bodies with bitwise / shift / power / float arithmetic x and y are enumerated by the solver over [-3, 4] x [-8, 8]")
     ctx.crosshair(jobs)
+    rep = {"unsupported": {}, "paths_outside": {}, "lowered_both": 0, "bodies": 0, "guppy_side_not_lowered": []}
+    import glob
+    for f in sorted(glob.glob(os.path.join(ctx.workdir, "c21report_*.json"))):
+        r = json.load(open(f))
+        rep["unsupported"].update(r["unsupported"])
+        rep["lowered_both"] += r["lowered_both"]
+        rep["bodies"] += r["bodies"]
+        rep["guppy_side_not_lowered"] += r["guppy_side_not_lowered"]
+    ctx.extra["lowering"] = rep
+    for idx, v, why in rep["guppy_side_not_lowered"]:
+        ctx.add(Obligation(f"body #{idx} lowered as @guppy", "concrete", "not_confirmed", detail={"verdict": v, "why": why}))
     return ctx.finish(
         level="model_checking",
         rule="case = one path = one (operator, operand kinds, type-check outcomes); non-trivial = both the comptime and the regular dispatch ran and were compared",
         explanation="CrossHair/z3 symbolic execution of the real comptime dunder dispatch and the real regular-mode binary synthesis under the same symbolic type-check outcomes; both must denote the source expression",
-        trusted_base=["CPython 3.12 operator protocol", "crosshair-tool 0.0.110", "z3 5.1", "import shim"],
+        trusted_base=["CPython 3.12 operator protocol", "crosshair-tool 0.0.110", "z3 5.1", "import shim", "lib/e7.py HUGR interpreter (both sides are read by the same interpreter)"],
+        extra_cov={"lowering_level": ctx.extra.get("lowering")},
     )
